@@ -48,6 +48,9 @@ SIDE_KINDS = {'L': ['con', 'mcon', 'ires', 'pres'], 'D': ['rep', 'mrep', 'ires',
 
 CON_TAGS = ['!a', '!b', 'tag:yaml.org,2002:int', None, '!y1', 'tag:yaml.org,2002:str']
 MCON_PREFIXES = ['!p/', '!q/', None, 'tag:example.com,2000:']
+# histories in 'many prefixes' mode draw from these too (tables that grow past any small-table fast path); no prefix is a
+# prefix of another
+EXTRA_PREFIXES = ['!r%02d/' % i for i in range(12)]
 TYPES = ['TA', 'TB', 'TC', 'int', 'None', 'str', 'TUP']
 REGEXES = [r'^x\d+$', r'^y.*$', r'^\d+$', r'^(?:x1|zz)$']
 FIRSTS = [['x'], ['x', 'y'], None, ['1', '2'], ['z', 'x'], 'xy', ['y', None], [''], ['z'], ['x1'], ['xy', 'z'], ['y', 'y2']]
@@ -156,12 +159,17 @@ def generate(seed, tier):
     kinds = ['con', 'mcon', 'rep', 'mrep', 'ires', 'pres']
     if r.random() < 0.5:
         kinds = r.sample(kinds, r.randint(1, 4))
+    many = r.random() < 0.08
+    if many:
+        kinds = ['mcon', 'mcon', 'mcon', 'con']
     fail_p = r.choice([0.0, 0.0, 0.1, 0.3])
     p_sub = r.choice([0.1, 0.2, 0.35])
     p_mod = r.choice([0.0, 0.15, 0.3])
     p_yobj = r.choice([0.0, 0.1, 0.2])
     focus = r.random() < 0.4      # most registrations target a small set of classes
     n = r.randint(5, 40) if tier == 'quick' else r.randint(5, 60)
+    if many:
+        n = max(n, r.randint(20, 40))
     lsubs, dsubs, yobjs = [], [], []
     ops = []
     hot = None
@@ -201,7 +209,7 @@ def generate(seed, tier):
         module = r.random() < p_mod
         op = {'op': 'mod' if module else 'add', 'kind': kind}
         if kind in ('con', 'mcon'):
-            op['key'] = r.choice(CON_TAGS if kind == 'con' else MCON_PREFIXES)
+            op['key'] = r.choice(CON_TAGS if kind == 'con' else (MCON_PREFIXES + EXTRA_PREFIXES * 3 if many else MCON_PREFIXES))
         elif kind in ('rep', 'mrep'):
             op['key'] = r.choice(TYPES + yobjs)
         elif kind == 'ires':
@@ -1003,11 +1011,14 @@ def compare_all(w, model, initial, out, where, behaviour_for, memo):
         real = canon_table(w, kind, w['rootcls'][(kind, olab)].__dict__[ATTR[kind]])
         if real != want:
             return {'class': 'root-table-changed', 'detail': dict(where, root=olab, kind=kind, diff=table_diff(want, real))}
+    # one more load probe for every extra prefix that some class has registered so far
+    extra = [p for p in EXTRA_PREFIXES if any(c['side'] == 'L' and ('s:' + p) in model.eff(n, 'mcon') for n, c in model.classes.items())]
+    extra_probes = [('load', '%ssfx x' % p) for p in extra]
     for name in behaviour_for:
         cls = w['cls'][name]
         side = model.classes[name]['side']
-        probes = LOAD_PROBES if side == 'L' else DUMP_PROBES
-        key = (name, observe.digest([model.eff(name, k) for k in SIDE_KINDS[side]]), len(w['yobj']))
+        probes = (LOAD_PROBES + extra_probes) if side == 'L' else DUMP_PROBES
+        key = (name, observe.digest([model.eff(name, k) for k in SIDE_KINDS[side]]), len(w['yobj']), len(extra))
         ref = memo.get(key)
         if ref is None:
             try:
